@@ -182,6 +182,9 @@ Definition side_ok (g : ghost) (w : world) (e : nat) (en : StateModel.entry) (sd
              opt_in (StateModel.s_hash x) cs && opt_in (StateModel.s_shash x) cs &&
              (* a known path comes with a known hash; a paired entry has its sync markers *)
              (is_none (StateModel.s_path x) || negb (is_none (StateModel.s_hash x))) &&
+             (* never synchronised: no sync markers; a sync path was a path *)
+             (paired || (is_none (StateModel.s_spath x) && is_none (StateModel.s_shash x))) &&
+             (is_none (StateModel.s_spath x) || negb (is_none (StateModel.s_path x))) &&
              (negb paired || (negb (is_none (StateModel.s_spath x)) && negb (is_none (StateModel.s_shash x)))) &&
              match cs with d :: _ => N.eqb d (ProvModel.o_data ob) | [] => false end &&
              (* (J) the peer holds the owner's content, or the owner is ahead and flagged *)
